@@ -633,6 +633,20 @@ func TestC06InjectServer(t *testing.T) {
 					synctest.Test(t, func(t *testing.T) { obs = RunServerScript(c) })
 					judgeC06InjectServer(c, obs, o)
 					rec.Eval(c, o)
+					// the pipelining peer: behind its choice of tls, in the same cleartext write, its credentials and the data envelope
+					if n := len(p); n > 0 && cfg.Transport == "tcp-tls" && p[n-1].Kind == "session" && p[n-1].State == "negotiating" && p[n-1].Enc == "tls" && p[n-1].DoTLS {
+						g := good
+						g.Glued = true
+						c2 := &SrvCase{Cfg: cfg, End: "wait"}
+						c2.Script = append(append([]CSym(nil), p...), g, CSym{Kind: kind, ID: "none", Glued: true})
+						o2 := &Outcome{}
+						o2.Class("pipelined-behind-the-tls-choice")
+						var obs2 *SrvObs
+						rec.Journal(c2)
+						synctest.Test(t, func(t *testing.T) { obs2 = RunServerScript(c2) })
+						judgeC06InjectServer(c2, obs2, o2)
+						rec.Eval(c2, o2)
+					}
 				}
 			}
 		}
